@@ -1076,7 +1076,21 @@ def reresolves(doc, ptxt, a, isegs):
     has_anchor = any(sg[0] == "ANCHOR" for sg in (isegs or []))
     if has_anchor and got is not None and a in got:
         node_obj = resolve(rd, a)
-        if isegs[-1][0] == "ANCHOR" or all(isinstance(x, list) and resolve(rd, x) is node_obj for x in got):
+        if isegs[-1][0] == "ANCHOR":
+            # "... once per place it is aliased": every child of the result's parent that bears the anchor, no other
+            parent = resolve(rd, a[:-1]) if a else None
+            name = isegs[-1][1] if isinstance(isegs[-1][1], str) else None
+            places = None
+            if name is not None and isinstance(parent, dict):
+                places = [list(a[:-1]) + [["k", k]] for k, v in parent.items() if getattr(getattr(v, "anchor", None), "value", None) == name]
+            elif name is not None and isinstance(parent, list):
+                places = [list(a[:-1]) + [["i", i]] for i, v in enumerate(parent) if getattr(getattr(v, "anchor", None), "value", None) == name]
+            if places is not None and all(isinstance(x, list) for x in got):
+                norm = lambda xs: sorted(json.dumps(x, sort_keys=True, default=str) for x in xs)    # noqa: E731
+                if len(places) > 1 and norm(got) != norm(places):
+                    return False, rq, got
+            return True, rq, got
+        if all(isinstance(x, list) and resolve(rd, x) is node_obj for x in got):
             return True, rq, got
     return got == [a], rq, got
 
